@@ -4,6 +4,7 @@ mod disk;
 mod dump;
 mod framework;
 mod l1;
+mod l2;
 mod model;
 mod prng;
 mod sched;
